@@ -44,7 +44,8 @@ def label_map(draw, n, scheme=None, cap=300000):
 @st.composite
 def hyd_net(draw, max_n=10, fluids=None, allow_oos=True, allow_pi=True, allow_ctrl=True, allow_heights=True,
             labels=True, max_sections=4, sectors=True, liquids_only=False, gases_only=False, zero_load_p=0.04,
-            t_uniform=False, allow_pumps=True, min_n=2, allow_parallel=True, extra_edges=4, all_flowing=False):
+            t_uniform=False, allow_pumps=True, min_n=2, allow_parallel=True, extra_edges=4, all_flowing=False,
+            allow_lift=True):
     fluids = fluids or ALL_FLUIDS
     if all_flowing:
         allow_oos = False
@@ -101,9 +102,9 @@ def hyd_net(draw, max_n=10, fluids=None, allow_oos=True, allow_pi=True, allow_ct
             choices = ["pipe"] * 8 + ["valve"] * 2
             if allow_ctrl:
                 choices += ["press_control"]
-                if gas:
+                if gas and allow_lift:
                     choices += ["compressor", "compressor"]
-                if allow_pumps and not gas:
+                if allow_pumps and allow_lift and not gas:
                     choices += ["pump", "pump"]
         else:
             choices = ["pipe"] * 6 + ["valve"] * 2
